@@ -106,6 +106,96 @@ theorem raw_injective (t : Name) : Function.Injective (enumValueName .raw t) := 
   have := List.append_cancel_left h
   simpa using this
 
+theorem auxG_ok (nameOf : Name → Name) (taken : List Name) (k : Nat) (vs : List Name) (seen cs : List EnumConst)
+    (h : convertEnumAuxG nameOf taken k vs seen = .ok cs) :
+    cs = seen.reverse ++ vs.map (fun v => ⟨nameOf v, v⟩) ∧
+    (∀ v ∈ vs, nameOf v ∉ seen.map (·.goName) ∧ nameOf v ∉ taken) ∧ (vs.map nameOf).Nodup := by
+  induction vs generalizing seen with
+  | nil =>
+    simp only [convertEnumAuxG] at h
+    cases h
+    simp
+  | cons v vs ih =>
+    simp only [convertEnumAuxG] at h
+    split at h
+    · cases h
+    · rename_i hf
+      have hnm := (find_none_iff_not_mem seen (nameOf v)).1 hf
+      split at h
+      · cases h
+      · rename_i htk
+        have hnt : nameOf v ∉ taken := by simpa using htk
+        obtain ⟨h1, h2, h3⟩ := ih (⟨nameOf v, v⟩ :: seen) h
+        refine ⟨?_, ?_, ?_⟩
+        · simp [h1]
+        · intro w hw
+          rcases List.mem_cons.1 hw with rfl | hw
+          · exact ⟨hnm, hnt⟩
+          · have := h2 w hw
+            simp only [List.map_cons, List.mem_cons, not_or] at this
+            exact ⟨this.1.2, this.2⟩
+        · simp only [List.map_cons, List.nodup_cons]
+          refine ⟨?_, h3⟩
+          intro hmem
+          obtain ⟨w, hw, hwe⟩ := List.mem_map.1 hmem
+          have := (h2 w hw).1
+          simp only [List.map_cons, List.mem_cons, not_or] at this
+          exact this.1 hwe
+
+theorem auxG_err_not_ok (nameOf : Name → Name) (taken : List Name) (k : Nat) (vs : List Name) (seen : List EnumConst)
+    (e : EnumsRes) (h : convertEnumAuxG nameOf taken k vs seen = .error e) : ∀ r, e ≠ .ok r := by
+  induction vs generalizing seen with
+  | nil => simp [convertEnumAuxG] at h
+  | cons v vs ih =>
+    simp only [convertEnumAuxG] at h
+    split at h
+    · cases h; intro r hr; cases hr
+    · split at h
+      · cases h; intro r hr; cases hr
+      · exact ih _ h
+
+theorem nodup_append_of {α : Type} (a b : List α) (ha : a.Nodup) (hb : b.Nodup) (hd : ∀ x ∈ b, x ∉ a) : (a ++ b).Nodup := by
+  induction a with
+  | nil => simpa using hb
+  | cons x xs ih =>
+    simp only [List.nodup_cons] at ha
+    simp only [List.cons_append, List.nodup_cons, List.mem_append, not_or]
+    refine ⟨⟨ha.1, fun hx => hd x hx (List.mem_cons_self ..)⟩, ih ha.2 (fun y hy hyx => hd y hy (List.mem_cons_of_mem _ hyx))⟩
+
+/-- invariant of the loop over enums: `taken` lists the constants emitted so far, without repeats -/
+theorem enumsAux_ok (cfg : CasingCfg) : ∀ (ds : List EnumDecl) (k : Nat) (taken : List Name) (acc res : List (List EnumConst)),
+    convertEnumsAux cfg ds k taken acc = .ok res →
+    taken.Nodup → taken = acc.reverse.flatMap (fun cs => cs.map (·.goName)) →
+    (res.flatMap (fun cs => cs.map (·.goName))).Nodup ∧
+    ∃ rest, res = acc.reverse ++ rest ∧ rest.map (fun cs => cs.map (·.gqlName)) = ds.map (·.values)
+  | [], _, taken, acc, res, h, hn, ht => by
+    simp only [convertEnumsAux, EnumsRes.ok.injEq] at h
+    subst h
+    exact ⟨ht ▸ hn, [], by simp, rfl⟩
+  | d :: ds, k, taken, acc, res, h, hn, ht => by
+    simp only [convertEnumsAux] at h
+    split at h
+    · next e he => exact absurd h (auxG_err_not_ok _ _ _ _ _ _ he res)
+    · next cs hcs =>
+      obtain ⟨h1, h2, h3⟩ := auxG_ok _ _ _ _ _ _ hcs
+      simp only [List.reverse_nil, List.nil_append] at h1
+      have hnames : cs.map (·.goName) = d.values.map (enumValueName (cfg.forEnum d.gqlTypeName) d.goTypeName) := by
+        rw [h1]; simp [Function.comp_def]
+      have hgql : cs.map (·.gqlName) = d.values := by
+        rw [h1]; simp [Function.comp_def]
+      have hnew : (taken ++ cs.map (·.goName)).Nodup := by
+        apply nodup_append_of _ _ hn (hnames ▸ h3)
+        intro x hx
+        rw [hnames] at hx
+        obtain ⟨v, hv, rfl⟩ := List.mem_map.1 hx
+        exact (h2 v hv).2
+      have := enumsAux_ok cfg ds (k + 1) _ (cs :: acc) res h hnew (by
+        rw [ht]; simp)
+      obtain ⟨hnd, rest, hres, hrest⟩ := this
+      refine ⟨hnd, cs :: rest, ?_, ?_⟩
+      · rw [hres]; simp
+      · simp [hgql, hrest]
+
 end Lemmas
 
 /-- **C16_bijection** — on success there is exactly one constant per schema value, in schema
@@ -165,7 +255,26 @@ theorem C16_conflict_is_real (cfg : CasingCfg) (t g : Name) (values : List Name)
   obtain ⟨h1, h2, _⟩ := aux_conflict _ _ _ _ _ _ h
   exact ⟨h2, h1⟩
 
-/-- The unrestricted uniqueness claim (constants of *different* enums never collide). -/
+/-- **C16_global_unique** — over a whole generation (the enums in the order they are converted,
+    with the generator-wide table of constant names): when generation succeeds, every enum has
+    exactly its schema values in order, and ALL constants of ALL enums have pairwise distinct Go
+    identifiers — no duplicate is ever emitted, also not across enums (the repaired F-16:
+    `enum A {B_C}` and `enum AB {C}` both yielding `ABC`). -/
+theorem C16_global_unique (cfg : CasingCfg) (ds : List EnumDecl) (res : List (List EnumConst))
+    (h : convertEnums cfg ds = .ok res) :
+    (res.flatMap (fun cs => cs.map (·.goName))).Nodup ∧
+    res.map (fun cs => cs.map (·.gqlName)) = ds.map (·.values) := by
+  obtain ⟨h1, rest, h2, h3⟩ := enumsAux_ok cfg ds 0 [] [] res h List.nodup_nil rfl
+  simp only [List.reverse_nil, List.nil_append] at h2
+  subst h2
+  exact ⟨h1, h3⟩
+
+/-- the cross-enum clash is reported (as an error naming the value), not emitted -/
+theorem C16_cross_enum_collision_reported :
+    convertEnums ⟨none, none, []⟩ [⟨['A'], ['A'], [['B', '_', 'C']]⟩, ⟨['A', 'B'], ['A', 'B'], [['C']]⟩]
+      = .crossConflict 1 ['C'] ['A', 'B', 'C'] := by decide
+
+/-- The per-enum function alone does not see other enums: its unrestricted uniqueness claim… -/
 def C16_global_unique_full : Prop :=
   ∀ (cfg : CasingCfg) (e1 e2 : Name) (v1 v2 : List Name) (c1 c2 : List EnumConst),
     e1 ≠ e2 →
@@ -173,7 +282,8 @@ def C16_global_unique_full : Prop :=
     convertEnum cfg (enumGoTypeName cfg e2) e2 v2 = .ok c2 →
     ∀ x ∈ c1, ∀ y ∈ c2, x.goName ≠ y.goName
 
-/-- …is false: `enum A {B_C}` and `enum AB {C}` both yield `ABC` (F-16). -/
+/-- …is false: `enum A {B_C}` and `enum AB {C}` both yield `ABC` (F-16 as it was on the pinned
+    commit; the generator-wide table above is what repairs it). -/
 theorem C16_cross_enum_collision : ¬ C16_global_unique_full := by
   intro h
   have := h ⟨none, none, []⟩ ['A'] ['A', 'B'] [['B', '_', 'C']] [['C']]
